@@ -36,7 +36,8 @@ for name in sorted(os.listdir(src)):
     if only and name not in only:
         continue
     pid = name.split('_')[0]
-    r = {'property': pid}
+    neutral = name.endswith('_N')
+    r = {'property': pid, 'kind': 'neutral' if neutral else 'mutant'}
     sh('git -C %s checkout -- .' % REPO, 60)
     rc, o, _ = sh('git -C %s apply %s' % (REPO, os.path.join(d, 'patch.diff')), 60)
     r['applies'] = rc == 0
@@ -47,8 +48,12 @@ for name in sorted(os.listdir(src)):
     rc, o, t = sh('%s -m pytest -q -p no:cacheprovider 2>&1 | tail -3' % PY, 900, {'PYTHONPATH': REPO + '/src'}, cwd=REPO)
     r['tests'] = o.strip().split('\n')[-1]
     sh('git -C %s checkout -- tests' % REPO, 60)
-    rc, o, t = sh('%s %s' % (PY, os.path.join(d, 'demo.py')), 600, {'PYTHONPATH': REPO + '/src'}, cwd=d)
-    r['demo_with_mutant_rc'] = rc
+    if neutral:
+        rc, o, t = sh('%s %s' % (PY, os.path.join(d, 'equiv.py')), 900, {'PYTHONPATH': REPO + '/src', 'PYTHONHASHSEED': '0'}, cwd=d)
+        r['equiv_with_change'] = o.strip()[-200:]
+    else:
+        rc, o, t = sh('%s %s' % (PY, os.path.join(d, 'demo.py')), 600, {'PYTHONPATH': REPO + '/src'}, cwd=d)
+        r['demo_with_mutant_rc'] = rc
     rc, o, t = sh('%s harness/check.py %s --tier quick' % (PY, pid), 1800, {'VERIF_REPO': REPO}, cwd=V)
     r['check_rc'] = rc
     r['check_s'] = t
@@ -56,9 +61,14 @@ for name in sorted(os.listdir(src)):
     r['detected'] = (rc == 1 and any(l.startswith('VIOLATION property=%s' % pid) for l in o.split('\n')))
     r['with_failing_input'] = any(l.startswith('VIOLATION') and 'no-failing-input-found' not in l for l in o.split('\n'))
     sh('git -C %s checkout -- .' % REPO, 60)
-    rc, o, t = sh('%s %s' % (PY, os.path.join(d, 'demo.py')), 600, {'PYTHONPATH': REPO + '/src'}, cwd=d)
-    r['demo_clean_rc'] = rc
+    if neutral:
+        rc, o, t = sh('%s %s' % (PY, os.path.join(d, 'equiv.py')), 900, {'PYTHONPATH': REPO + '/src', 'PYTHONHASHSEED': '0'}, cwd=d)
+        r['equiv_clean'] = o.strip()[-200:]
+        r['silent'] = (r['check_rc'] == 0 and not r['detected'])
+    else:
+        rc, o, t = sh('%s %s' % (PY, os.path.join(d, 'demo.py')), 600, {'PYTHONPATH': REPO + '/src'}, cwd=d)
+        r['demo_clean_rc'] = rc
     res[name] = r
     json.dump(res, open(out, 'w'), indent=1)
-    print(name, r['tests'], 'demo', r['demo_with_mutant_rc'], r['demo_clean_rc'], 'detected', r['detected'], r['with_failing_input'], r['check_s'], flush=True)
+    print(name, r['kind'], r['tests'], 'demo', r.get('demo_with_mutant_rc'), r.get('demo_clean_rc'), 'check_rc', r['check_rc'], 'detected', r['detected'], r['with_failing_input'], r.get('silent'), r['check_s'], flush=True)
 json.dump(res, open(out, 'w'), indent=1)
